@@ -210,7 +210,8 @@ def _l2_body(info, r, c1, c2, cap):
     ri = P.decode(r, nr)
     n = len(CORPUS[OPI][ri]) + len(SENTINEL)
     k1 = P.decode(c1, n)
-    k2 = (k1 + P.decode(c2 - c1, n - k1)) if TWO else k1
+    # two cut points for short replies only (the space is quadratic in the length)
+    k2 = (k1 + P.decode(c2 - c1, n - k1)) if (TWO and n <= 80) else k1
     ci = P.decode(cap, NCAPS)
     info["concrete"] = dict(r=ri, c1=k1, c2=k2, cap=ci)
     info["steps"] = 4
